@@ -13,8 +13,13 @@ JOBS = [
   Job("c06.wake_many.bounded", TU, "h_wake_many_stack", kind="bounded",
       replace_calls=["myth_sleep_stack_pop:verif_stack_pop", "myth_queue_push:verif_push"],
       cbmc=["--unwind", "8", "--unwinding-assertions"], defines=["-DWM_N=4", "-DWM_K=2"],
-      fuc=["myth_wake_many_from_stack"], timeout=300,
+      fuc=["myth_wake_many_from_stack"], timeout=300, tiers=("quick",),
       note="bounded: n <= 4 sleepers, at most 2 empty polls of the sleep stack (late sleepers)"),
+  Job("c06.wake_many.n12.bounded", TU, "h_wake_many_stack", kind="bounded",
+      replace_calls=["myth_sleep_stack_pop:verif_stack_pop", "myth_queue_push:verif_push"],
+      cbmc=["--unwind", "20", "--unwinding-assertions"], defines=["-DWM_N=12", "-DWM_K=4"],
+      fuc=["myth_wake_many_from_stack"], timeout=1800, mem_gb=12, tiers=("thorough",),
+      note="bounded: n <= 12 sleepers, at most 4 empty polls of the sleep stack (late sleepers)"),
   Job("c06.block_on_stack", TU, "h_block_on_stack",
       replace=["myth_sleep_stack_push/stack_push_contract", "verif_suspend_resume/suspend_resume_contract"],
       replace_calls=["myth_queue_pop:verif_pop"], fuc=["myth_block_on_stack", "myth_block_on_stack_cb"], timeout=200),
